@@ -886,6 +886,21 @@ pub fn deroman_family(r: &mut Rng) -> Vec<Call> {
         .collect()
 }
 
+/// romanisers that replace the syllable boundary by visible text, over words some of which
+/// begin with a stressed syllable (the leading stress mark is then dropped, not replaced)
+pub fn boundary_alias_call(r: &mut Rng) -> Call {
+    let b: &str = *r.pick(&["$ > ·", "$ > \\-", "$ > '"][..]);
+    let mut from = vec![b.to_string()];
+    if r.chance(1, 2) {
+        from.push((*r.pick(&["a:[+str] > á", "V:[+str] => +@{acute}", "ʃ > sh"][..])).to_string());
+    }
+    let pool = ["ˈka.ta", "mi.no", "ˈlo", "ˈmi.no", "ta.ˈka", "ˈsa.na", "pa", "ˌsa.na.ˈta", "ʃa.ˈʃa"];
+    let n = r.range(2, 5);
+    let words: Vec<String> = (0..n).map(|_| (*r.pick(&pool[..])).to_string()).collect();
+    let rules = if r.chance(1, 2) { vec![] } else { vec![Group::anon(vec!["a > e / _#".to_string()])] };
+    Call { kind: "run".into(), rules, words, into: vec![], from }
+}
+
 /// corpus cross product sample: a test rule applied to a handful of test words
 pub fn corpus_call(d: &Data, r: &mut Rng) -> Call {
     let rule = r.pick(&d.test_rules).clone();
